@@ -177,3 +177,12 @@ def run(rep, tier):
             fn(imp, idx)
         except AnalysisBroken as e:
             rep.undecided('R15', fn.__name__, 'not interpreted: %s' % e, 'hexasm.hpp hexasm::Parser')
+    # R16: the listing (--instrs) is produced without undefined behaviour for every directive kind and operand class (import of C17-R1)
+    rep.rule('R16', 'hexasm --instrs terminates cleanly too: formatting the listing line of every directive kind -- immediates of small, 128..255, '
+             'negative and strongly negative value included -- involves no undefined behaviour such as a <cctype> call on a value outside '
+             'unsigned char (import of C17-R1)', floor=8)
+    from . import c17
+    try:
+        c17.run(_report.Import(rep, 'R16', 'C17', only_rules=('R1',)), tier)
+    except AnalysisBroken as e:
+        rep.undecided('R16', 'listing', 'not interpreted: %s' % e, 'hexasm.hpp hexasm::CodeGen::emitProgramText')
